@@ -86,7 +86,7 @@ CLAIMED = {
  'C17': C('translation validation: canonical MIR terms of the derive-generated function vs the documented hand-written equivalent, over a base family plus a VERIF_SEED-generated family',
    'For each family member the function generated by the current bpaf_derive and the combinator function prescribed by the documented rules (independent model, witness/derive_family/gen.py) are compiled and reduced to canonical '
    'terms (resolved callees with generic arguments, constants, aggregate shapes, closure statement shapes; order-insensitive builder chains folded). Equal terms => same parser value => identical outcome on every argv. '
-   '35 base members (one per rule/annotation, incl. explicit group_help vs doc comment, blank-only doc lines, naming annotations on unit variants, non-ASCII field names, doc comments with long gaps, parser-mode annotations) + 30 (quick) / 300 (thorough) seeded members. Definitions outside the family are not covered; the macro runs at compile time on the witnesses, nothing of bpaf is executed.', 'DESIGN.md sections 0, 5 and Appendix E, C17',
+   '40 base members (one per rule/annotation, incl. explicit group_help vs doc comment, blank-only and single blank doc lines, constant consumers, version and explicit header/footer on commands, naming annotations on unit variants, non-ASCII field names, doc comments with long gaps, parser-mode annotations) + 30 (quick) / 300 (thorough) seeded members. Definitions outside the family are not covered; the macro runs at compile time on the witnesses, nothing of bpaf is executed.', 'DESIGN.md sections 0, 5 and Appendix E, C17',
    category='translation_validation'),
  'C18': C('who-may-call census incl. fn-item references, name provenance, precedence by edge-restricted reachability, single-conversion join',
    'Decides: std::env is used only at the listed sites with names from the declared env list; the flag/argument consumers consult the command line on every path and the environment only on '
